@@ -29,7 +29,7 @@ import (
 
 // Tunables (variables so that the dev tool can change them).
 var (
-	CBatchSize   = 6                // cases per translation unit
+	CBatchSize   = 0                // cases per translation unit (0: chosen from the number of cases)
 	CParallel    = runtime.NumCPU() // concurrent wuffs-c / gcc / case processes
 	CRunTimeout  = 20 * time.Second // per case process
 	CCompiler    = "gcc"
@@ -53,15 +53,15 @@ type csig struct {
 }
 
 type ccase struct {
-	idx   int
-	c     *Case
-	pkg   string // vt0007
-	wfile string // input .wuffs
-	cfile string // generated package C
+	idx    int
+	c      *Case
+	pkg    string // vt0007
+	wfile  string // input .wuffs
+	cfile  string // generated package C
 	clines []string
-	sigs  map[string]*csig
-	err   *Event // generation failure
-	body  string // run_NNNN function text
+	sigs   map[string]*csig
+	err    *Event // generation failure
+	body   string // run_NNNN function text
 }
 
 // RunC generates, compiles and runs the production C for the cases (all
@@ -99,6 +99,13 @@ func RunC(env *Env, cases []*Case) (traces [][]Rec, events [][]Event, err error)
 		return nil, nil, err
 	}
 
+	tPhase := time.Now()
+	phase := func(name string) {
+		if os.Getenv("WPROG_TIMING") != "" {
+			fmt.Fprintf(os.Stderr, "[wprog.RunC %s] %s: %.2fs\n", variant, name, time.Since(tPhase).Seconds())
+		}
+		tPhase = time.Now()
+	}
 	ccs := make([]*ccase, len(cases))
 	parallel(len(cases), func(i int) {
 		cc := &ccase{idx: i, c: cases[i], pkg: fmt.Sprintf("vt%04d", i)}
@@ -106,6 +113,7 @@ func RunC(env *Env, cases []*Case) (traces [][]Rec, events [][]Event, err error)
 		cc.generate(env, dir)
 	})
 
+	phase("wuffs-c gen")
 	// Batches of cases whose generation succeeded.
 	var good []*ccase
 	for _, cc := range ccs {
@@ -120,8 +128,18 @@ func RunC(env *Env, cases []*Case) (traces [][]Rec, events [][]Event, err error)
 		bin   string
 	}
 	var batches []*batch
-	for i := 0; i < len(good); i += CBatchSize {
-		j := i + CBatchSize
+	bsz := CBatchSize
+	if bsz <= 0 {
+		bsz = (len(good) + CParallel - 1) / max1(CParallel)
+		if bsz < 4 {
+			bsz = 4
+		}
+		if bsz > 24 {
+			bsz = 24
+		}
+	}
+	for i := 0; i < len(good); i += bsz {
+		j := i + bsz
 		if j > len(good) {
 			j = len(good)
 		}
@@ -161,29 +179,32 @@ func RunC(env *Env, cases []*Case) (traces [][]Rec, events [][]Event, err error)
 	})
 	batches = append(batches, single...)
 
-	type job struct {
-		cc  *ccase
-		bin string
-		k   int
-	}
-	var jobs []job
+	phase("gcc")
+	var runnable []*batch
 	for _, b := range batches {
-		if b.bin == "" {
-			continue
-		}
-		for k, cc := range b.cases {
-			jobs = append(jobs, job{cc, b.bin, k})
+		if b.bin != "" {
+			runnable = append(runnable, b)
 		}
 	}
-	parallel(len(jobs), func(ji int) {
-		j := jobs[ji]
-		tr, ev := runCase(j.bin, j.k, j.cc)
-		traces[j.cc.idx] = tr
+	parallel(len(runnable), func(bi int) {
+		b := runnable[bi]
+		trs, evs := runBatch(b.bin, b.cases)
 		mu.Lock()
-		events[j.cc.idx] = append(events[j.cc.idx], ev...)
+		for k, cc := range b.cases {
+			traces[cc.idx] = trs[k]
+			events[cc.idx] = append(events[cc.idx], evs[k]...)
+		}
 		mu.Unlock()
 	})
+	phase("run")
 	return traces, events, nil
+}
+
+func max1(n int) int {
+	if n < 1 {
+		return 1
+	}
+	return n
 }
 
 func trunc(s string, n int) string {
@@ -578,6 +599,41 @@ static void wd_rec_begin(int idx, const char* ret) {
 }
 `
 
+// cMain runs every case of the translation unit in a forked child: one exec
+// per batch, yet a crash (or memory corruption) of one case cannot touch the
+// others. Markers on stdout and stderr delimit the cases.
+const cMain = `
+#include <signal.h>
+#include <sys/types.h>
+#include <sys/wait.h>
+#include <unistd.h>
+
+int main(int argc, char** argv) {
+  int from = (argc > 1) ? atoi(argv[1]) : 0;
+  for (int k = from; k < WD_N; k++) {
+    printf("B\t%d\n", k);
+    fflush(stdout);
+    fprintf(stderr, "@@B\t%d\n", k);
+    fflush(stderr);
+    pid_t pid = fork();
+    if (pid < 0) {
+      return 6;
+    } else if (pid == 0) {
+      alarm(WD_TIMEOUT);
+      int rc = wd_table[k]();
+      fflush(stdout);
+      _exit(rc);
+    }
+    int st = 0;
+    while ((waitpid(pid, &st, 0) < 0)) {
+    }
+    printf("X\t%d\t%d\t%d\n", k, WIFEXITED(st) ? WEXITSTATUS(st) : -1, WIFSIGNALED(st) ? WTERMSIG(st) : 0);
+    fflush(stdout);
+  }
+  return 0;
+}
+`
+
 // buildTU compiles and links one translation unit holding the given cases.
 func buildTU(dir, name string, cases []*ccase, flags []string, baseObj string, sanitize bool) (bin string, errMsg string) {
 	var b strings.Builder
@@ -593,11 +649,12 @@ func buildTU(dir, name string, cases []*ccase, flags []string, baseObj string, s
 		b.WriteString(cc.body)
 		b.WriteString("\n")
 	}
-	b.WriteString("int main(int argc, char** argv) {\n  int k = (argc > 1) ? atoi(argv[1]) : 0;\n  switch (k) {\n")
-	for k, cc := range cases {
-		fmt.Fprintf(&b, "    case %d: return run_%04d();\n", k, cc.idx)
+	b.WriteString("typedef int (*wd_run_func)(void);\nstatic wd_run_func wd_table[] = {\n")
+	for _, cc := range cases {
+		fmt.Fprintf(&b, "  run_%04d,\n", cc.idx)
 	}
-	b.WriteString("  }\n  return 5;\n}\n")
+	fmt.Fprintf(&b, "};\n#define WD_N %d\n#define WD_TIMEOUT %d\n", len(cases), int(CRunTimeout.Seconds())+1)
+	b.WriteString(cMain)
 	src := filepath.Join(dir, name+".c")
 	if err := os.WriteFile(src, []byte(b.String()), 0o644); err != nil {
 		return "", err.Error()
@@ -646,58 +703,118 @@ func (cc *ccase) cLineText(cline int) string {
 	return ""
 }
 
-func runCase(bin string, k int, cc *ccase) ([]Rec, []Event) {
-	ctx, cancel := context.WithTimeout(context.Background(), CRunTimeout)
+// runBatch executes the batch binary once and splits its output per case.
+func runBatch(bin string, cases []*ccase) ([][]Rec, [][]Event) {
+	trs := make([][]Rec, len(cases))
+	evs := make([][]Event, len(cases))
+	ctx, cancel := context.WithTimeout(context.Background(), time.Duration(len(cases)+1)*(CRunTimeout+2*time.Second))
 	defer cancel()
-	cmd := exec.CommandContext(ctx, bin, strconv.Itoa(k))
+	cmd := exec.CommandContext(ctx, bin, "0")
 	cmd.Env = append(os.Environ(),
 		"ASAN_OPTIONS=detect_leaks=0:abort_on_error=0:allocator_may_return_null=1:handle_abort=1",
 		"UBSAN_OPTIONS=print_stacktrace=0:halt_on_error=1")
 	var stdout, stderr bytes.Buffer
 	cmd.Stdout, cmd.Stderr = &stdout, &stderr
-	err := cmd.Run()
+	runErr := cmd.Run()
 
-	var recs []Rec
-	finished := false
+	// stderr sections
+	errSec := make([]string, len(cases))
+	for _, sec := range strings.Split("\n"+stderr.String(), "\n@@B\t")[1:] {
+		nl := strings.IndexByte(sec, '\n')
+		if nl < 0 {
+			nl = len(sec)
+		}
+		if k, err := strconv.Atoi(strings.TrimSpace(sec[:nl])); err == nil && k >= 0 && k < len(cases) {
+			errSec[k] = sec[nl:]
+		}
+	}
+	// stdout sections
+	cur := -1
+	started := make([]bool, len(cases))
+	finished := make([]bool, len(cases))
+	exitCode := make([]int, len(cases))
+	exitSig := make([]int, len(cases))
+	exited := make([]bool, len(cases))
 	for _, ln := range strings.Split(stdout.String(), "\n") {
 		f := strings.Split(ln, "\t")
 		switch {
-		case ln == "E":
-			finished = true
-		case len(f) >= 9 && f[0] == "R":
-			idx, _ := strconv.Atoi(f[1])
-			if idx < 0 || idx >= len(cc.c.Calls) {
-				continue
+		case f[0] == "B" && len(f) == 2:
+			if k, err := strconv.Atoi(f[1]); err == nil && k >= 0 && k < len(cases) {
+				cur = k
+				started[k] = true
 			}
-			r := Rec{Method: cc.c.Calls[idx].Method, Ret: normStatus(f[2])}
-			r.SrcRI, _ = strconv.ParseUint(f[3], 10, 64)
-			r.SrcWI, _ = strconv.ParseUint(f[4], 10, 64)
-			r.DstRI, _ = strconv.ParseUint(f[5], 10, 64)
-			r.DstWI, _ = strconv.ParseUint(f[6], 10, 64)
-			r.DstHash, _ = strconv.ParseUint(f[7], 10, 64)
-			p := 8
-			ns, _ := strconv.Atoi(f[p])
-			p++
-			for i := 0; i < ns && p < len(f); i++ {
-				h, _ := strconv.ParseUint(f[p], 10, 64)
-				r.Slices = append(r.Slices, h)
-				p++
+		case f[0] == "X" && len(f) == 4:
+			if k, err := strconv.Atoi(f[1]); err == nil && k >= 0 && k < len(cases) {
+				exitCode[k], _ = strconv.Atoi(f[2])
+				exitSig[k], _ = strconv.Atoi(f[3])
+				exited[k] = true
 			}
-			if p < len(f) {
-				ng, _ := strconv.Atoi(f[p])
-				p++
-				for i := 0; i < ng && p < len(f); i++ {
-					r.Getters = append(r.Getters, normStatus(f[p]))
-					p++
-				}
+		case ln == "E" && cur >= 0:
+			finished[cur] = true
+		case f[0] == "R" && len(f) >= 9 && cur >= 0:
+			if r, ok := parseRec(cases[cur], f); ok {
+				trs[cur] = append(trs[cur], r)
 			}
-			recs = append(recs, r)
 		}
 	}
+	for k, cc := range cases {
+		callIdx := len(trs[k])
+		evs[k] = sanitizerEvents(cc, errSec[k], callIdx)
+		switch {
+		case !started[k] || !exited[k]:
+			kind := "c-not-run"
+			if ctx.Err() == context.DeadlineExceeded {
+				kind = "c-timeout"
+			} else if runErr != nil {
+				kind = "c-batch-failed:" + runErr.Error()
+			}
+			evs[k] = append(evs[k], Event{Prop: "C11", Kind: kind, Call: callIdx})
+		case exitSig[k] == int(syscall.SIGALRM):
+			evs[k] = append(evs[k], Event{Prop: "C11", Kind: "c-timeout", Call: callIdx})
+		case exitSig[k] != 0 && len(evs[k]) == 0:
+			evs[k] = append(evs[k], Event{Prop: "C01", Kind: "crash:" + syscall.Signal(exitSig[k]).String(), Values: trunc(strings.TrimSpace(errSec[k]), 500), Call: callIdx})
+		case exitCode[k] != 0 && len(evs[k]) == 0:
+			evs[k] = append(evs[k], Event{Prop: "C01", Kind: fmt.Sprintf("c-exit:%d", exitCode[k]), Values: trunc(strings.TrimSpace(errSec[k]), 500), Call: callIdx})
+		case exitCode[k] == 0 && exitSig[k] == 0 && !finished[k]:
+			evs[k] = append(evs[k], Event{Prop: "C11", Kind: "c-truncated-output", Call: callIdx})
+		}
+	}
+	return trs, evs
+}
 
+func parseRec(cc *ccase, f []string) (Rec, bool) {
+	idx, _ := strconv.Atoi(f[1])
+	if idx < 0 || idx >= len(cc.c.Calls) {
+		return Rec{}, false
+	}
+	r := Rec{Method: cc.c.Calls[idx].Method, Ret: normStatus(f[2])}
+	r.SrcRI, _ = strconv.ParseUint(f[3], 10, 64)
+	r.SrcWI, _ = strconv.ParseUint(f[4], 10, 64)
+	r.DstRI, _ = strconv.ParseUint(f[5], 10, 64)
+	r.DstWI, _ = strconv.ParseUint(f[6], 10, 64)
+	r.DstHash, _ = strconv.ParseUint(f[7], 10, 64)
+	p := 8
+	ns, _ := strconv.Atoi(f[p])
+	p++
+	for i := 0; i < ns && p < len(f); i++ {
+		h, _ := strconv.ParseUint(f[p], 10, 64)
+		r.Slices = append(r.Slices, h)
+		p++
+	}
+	if p < len(f) {
+		ng, _ := strconv.Atoi(f[p])
+		p++
+		for i := 0; i < ng && p < len(f); i++ {
+			r.Getters = append(r.Getters, normStatus(f[p]))
+			p++
+		}
+	}
+	return r, true
+}
+
+// sanitizerEvents turns the sanitizer output of one case into events.
+func sanitizerEvents(cc *ccase, se string, callIdx int) []Event {
 	var evs []Event
-	callIdx := len(recs)
-	se := stderr.String()
 	if m := reUBSan.FindStringSubmatch(se); m != nil {
 		cl, _ := strconv.Atoi(m[2])
 		class := strings.TrimSpace(reDigits.ReplaceAllString(reQuoted.ReplaceAllString(m[4], "T"), "N"))
@@ -722,19 +839,5 @@ func runCase(bin string, k int, cc *ccase) ([]Rec, []Event) {
 		}
 		evs = append(evs, e)
 	}
-	switch {
-	case ctx.Err() == context.DeadlineExceeded:
-		evs = append(evs, Event{Prop: "C11", Kind: "c-timeout", Call: callIdx})
-	case err != nil && len(evs) == 0:
-		kind := "c-exit:" + err.Error()
-		if ee, ok := err.(*exec.ExitError); ok {
-			if ws, ok := ee.Sys().(syscall.WaitStatus); ok && ws.Signaled() {
-				kind = "crash:" + ws.Signal().String()
-			}
-		}
-		evs = append(evs, Event{Prop: "C01", Kind: kind, Values: trunc(strings.TrimSpace(se), 500), Call: callIdx})
-	case err == nil && !finished:
-		evs = append(evs, Event{Prop: "C11", Kind: "c-truncated-output", Call: callIdx})
-	}
-	return recs, evs
+	return evs
 }
